@@ -147,10 +147,12 @@ Fixpoint tv_stmt (ps : pystmt) (rs : rstmt) {struct ps} : bool :=
       is_localname E x && net_is (tv_nets E) i x 32 true && (w =? 32) && tv_rhs 32 e re
   | PSPrepare p e, RNba (RLId i w) re =>
       match tv_kind E with KClock => true | _ => false end &&
-      match assoc (tv_outs E) p with Some w' => w' =? w | None => false end && net_is (tv_nets E) i p w false && tv_rhs w e re
+      match assoc (tv_outs E) p with Some w' => w' =? w | None => false end && (width_in (tv_ins E ++ tv_outs E) p =? w) &&
+      net_is (tv_nets E) i p w false && tv_rhs w e re
   | PSPut p e, RNba (RLId i w) re =>
       match tv_kind E with KPropagate => true | _ => false end &&
-      match assoc (tv_outs E) p with Some w' => w' =? w | None => false end && net_is (tv_nets E) i p w false && tv_rhs w e re
+      match assoc (tv_outs E) p with Some w' => w' =? w | None => false end && (width_in (tv_ins E ++ tv_outs E) p =? w) &&
+      net_is (tv_nets E) i p w false && tv_rhs w e re
   | _, _ => false
   end.
 End Expr.
@@ -204,7 +206,11 @@ Definition powerup_ok (E : tvenv) (f : flat) : bool :=
   forallb (fun p => match net_index (f_nets f) (fst p) 0 with Some i => getv env0 i =? 0 | None => false end) (tv_ins E ++ tv_outs E) &&
   forallb (fun p => negb (is_port E (fst p))) (tv_attrs E) &&
   forallb (fun p => in31 (snd p)) (tv_consts E) &&
-  forallb (fun n => (0 <? fn_width n)) (f_nets f).
+  forallb (fun n => (0 <? fn_width n)) (f_nets f) &&
+  Nat.eqb (length env0) (length (f_nets f)) &&
+  forallb (fun i => match nth_error (f_nets f) i with
+                    | Some n => (0 <=? getv env0 i) && (getv env0 i <? 2 ^ fn_width n)
+                    | None => true end) (seq 0 (length (f_nets f))).
 
 Definition flat_clk (f : flat) : string :=
   match f_procs f with
